@@ -20,6 +20,10 @@ def allowedWrites : List (String × String) := [
   ("(*Schema).UnmarshalJSON", "s.DependencyStrings[k]"),
   ("(*Schema).UnmarshalJSON", "s.DependencySchemas"),
   ("(*Schema).UnmarshalJSON", "s.DependencySchemas[k]"),
+  -- parameters of two local helper closures (`set(dst **int, src *integer)` and the `const` helper): they are handed the addresses of
+  -- fields of the receiver under construction
+  ("(*Schema).UnmarshalJSON", "*p"),
+  ("(*Schema).UnmarshalJSON", "*dst"),
   -- writes through a local alias (`info := infos[s]`): still the resolvedInfo records of the Resolved under construction
   -- (checkLocal runs inside Resolve). A write of this shape in validate / applyDefaults would be a shared-state write.
   ("(*Schema).checkLocal", "info.pattern (info = infos[s])"),
@@ -54,6 +58,9 @@ def allowedWrites : List (String × String) := [
   ("(*resolver).resolveRefs", "info.resolvedDynamicRef (info = rs.resolvedInfos[s])"),
   -- `st.stack`: the `state` struct is created per Validate / ApplyDefaults call: private per-call state
   ("(*state).validate", "st.stack"),
+  -- `anns` is also the name of a parameter of the local closure `valid`; the writes are to the call's own local record
+  ("(*state).validate", "anns.allItems"),
+  ("(*state).validate", "anns.allProperties"),
   -- `seen[..]`: the map allocated by For / ForType for one inference call
   ("forType", "seen[t]"),
   ("forType", "seen[_]"),
@@ -84,8 +91,10 @@ def allowedWrites : List (String × String) := [
   -- the two memo cells of the abstract machine: sync.Map, Store of a value that depends on the key only
   ("jsonNames", "jsonNamesMap.Store"),
   -- again the Resolved under construction
-  ("resolveURIs", "baseInfo.anchors (baseInfo = rs.resolvedInfos[base])"),
-  ("resolveURIs", "baseInfo.anchors[anchor] (baseInfo = rs.resolvedInfos[base])"),
+  -- (`baseInfo` is a parameter of the local closure `setAnchor`; the closure parameters `s`, `base` of the tree walker are
+  -- schema objects of the CALLER: no write goes through them)
+  ("resolveURIs", "baseInfo.anchors"),
+  ("resolveURIs", "baseInfo.anchors[anchor]"),
   ("resolveURIs", "info.uri (info = rs.resolvedInfos[s])"),
   ("resolveURIs", "rs.resolvedURIs[info.uri.String()]"),
   ("resolveURIs", "info.base (info = rs.resolvedInfos[s])"),
@@ -94,6 +103,11 @@ def allowedWrites : List (String × String) := [
   ("structPropertiesOf", "structProperties.Store"),
   -- `*errp`: the named error result of the caller (defer wrapf(&err, …)): a local
   ("wrapf", "*errp")]
+
+/-- the package-level variables of the package, by name: process-wide state is what concurrent callers share -/
+def expectedPkgVars : List String := ["initialSchemaMap", "disallowedPrefixRegexp", "jsonPointerEscaper", "jsonPointerUnescaper",
+  "schemaType", "schemaSliceType", "schemaMapType", "schemaFieldInfos", "schemaFieldMap", "jsonNumberType", "jsonNamesMap",
+  "structProperties"]
 
 end C13
 end JSV
